@@ -73,3 +73,4 @@ GROUPS += [
           flags=["--no-malloc-may-fail"], must_fail=["reach_end", "reach_repeated_objective_term"], functions=["transferObjective"],
           props=["C10", "C17"], assumed=["rawlp/objective: static transferObjective called through goto-cc --export-file-local-symbols; ILLdata_warn is a counter"]),
 ]
+
